@@ -72,6 +72,13 @@ pub open spec fn trav_total(cm: &CostModel, e: Edge, p: Seq<StateVar>, q: Seq<St
     floor_pos(veh_cost(p, q, cm.feature_indices@, cm.weights@, cm.vehicle_rates@, cm.cost_aggregation)
         + net_trav_cost(p, q, e, cm.feature_indices@, cm.weights@, cm.network_rates@, cm.cost_aggregation))
 }
+/// C07: "the cost charged for accessing plus traversing the edge ... equals the sum over features of weight times rated state change plus the configured per-edge AND
+/// PER-TURN surcharges whenever that sum is positive, and a tiny positive floor otherwise" -- `pair` is the (previous, next) pair of edges of the access, if any
+pub open spec fn edge_total(cm: &CostModel, e: Edge, pair: Option<(Edge, Edge)>, p: Seq<StateVar>, q: Seq<StateVar>) -> real {
+    floor_pos(veh_cost(p, q, cm.feature_indices@, cm.weights@, cm.vehicle_rates@, cm.cost_aggregation)
+        + net_trav_cost(p, q, e, cm.feature_indices@, cm.weights@, cm.network_rates@, cm.cost_aggregation)
+        + (match pair { Some(pr) => net_acc_cost(p, q, pr.0, pr.1, cm.feature_indices@, cm.weights@, cm.network_rates@, cm.cost_aggregation), None => 0real }))
+}
 pub open spec fn acc_total(cm: &CostModel, e1: Edge, e2: Edge, p: Seq<StateVar>, q: Seq<StateVar>) -> real {
     floor_pos(veh_cost(p, q, cm.feature_indices@, cm.weights@, cm.vehicle_rates@, cm.cost_aggregation)
         + net_acc_cost(p, q, e1, e2, cm.feature_indices@, cm.weights@, cm.network_rates@, cm.cost_aggregation))
@@ -136,7 +143,7 @@ pub open spec fn traversal_post(si: &SearchInstance, id: EdgeId, e1: Option<Edge
     &&& (e1 is None ==> et.access_cost@ == 0real)
     &&& (e1 is Some ==> et.access_cost@ == (if e2_is_prev { acc_total(&si.cost_model, e, e1->Some_0, prev_state, s1) } else { acc_total(&si.cost_model, e1->Some_0, e, prev_state, s1) }))
     // access share + traversal share == the floored total charged for the edge, which is strictly positive
-    &&& et.access_cost@ + et.traversal_cost@ == trav_total(&si.cost_model, e, prev_state, s2)
+    &&& et.access_cost@ + et.traversal_cost@ == edge_total(&si.cost_model, e, (match e1 { Some(o) => Some(if e2_is_prev { (e, o) } else { (o, e) }), None => None::<(Edge, Edge)> }), prev_state, s2)
     &&& et.access_cost@ + et.traversal_cost@ > 0real
 }
 """
@@ -172,6 +179,7 @@ def build(x):
     cmf = []
     for name, spec in [
         ("traversal_cost", "ensures r is Ok ==> r->Ok_0@ == trav_total(self, *edge, prev_state@, next_state@) && r->Ok_0@ > 0real,"),
+        ("total_cost", "ensures r is Ok ==> r->Ok_0@ == edge_total(self, *edge, (match access_edges { Some(pr) => Some((*pr.0, *pr.1)), None => None::<(Edge, Edge)> }), prev_state@, next_state@) && r->Ok_0@ > 0real,"),
         ("access_cost", "ensures r is Ok ==> r->Ok_0@ == acc_total(self, *prev_edge, *next_edge, prev_state@, next_state@) && r->Ok_0@ > 0real,"),
         ("cost_estimate", "ensures r is Ok ==> r->Ok_0@ == est_total(self, src_state@, dst_state@) && r->Ok_0@ >= 0real,"),
     ]:
@@ -217,7 +225,7 @@ def build(x):
 pub proof fn total_cost_positive(si: &SearchInstance, id: EdgeId, e1: Option<Edge>, rev: bool, prev_state: Seq<StateVar>, et: EdgeTraversal)
     requires traversal_post(si, id, e1, rev, prev_state, et)
     ensures et.access_cost@ + et.traversal_cost@ > 0real,
-            et.access_cost@ + et.traversal_cost@ == trav_total(&si.cost_model, g_edge(&si.directed_graph, id), prev_state, et.result_state@),
+            e1 is None ==> et.access_cost@ + et.traversal_cost@ == trav_total(&si.cost_model, g_edge(&si.directed_graph, id), prev_state, et.result_state@),
             e1 is None ==> et.traversal_cost@ == trav_total(&si.cost_model, g_edge(&si.directed_graph, id), prev_state, et.result_state@),
 {}
 // vacuity guard: MUST FAIL
